@@ -52,7 +52,8 @@ AddCallback(tok) ==
 (* ---- model checking instance: all call sequences ---- *)
 CONSTANTS MaxLen
 VARIABLE n
-Init == /\ cat \in {"n", "d", "x"} /\ max \in 0..1 /\ tried \in 0..1 /\ tried <= max /\ resOn \in BOOLEAN
+\* (tried > max: a forced retry takes the counter past the budget)
+Init == /\ cat \in {"n", "d", "x"} /\ max \in 0..1 /\ tried \in 0..2 /\ resOn \in BOOLEAN
         /\ ro = FALSE /\ log = <<>> /\ cbs = <<>> /\ spos = 0 /\ order = <<>> /\ stopped = FALSE /\ n = 0
 Next == /\ n < MaxLen /\ n' = n + 1
         /\ \/ \E o \in Terminal \cup Setters, dep \in BOOLEAN, r \in BOOLEAN, c \in {<<>>} \cup {<<BrokerOp(x)>> : x \in Terminal} :
